@@ -233,6 +233,30 @@ def run_bundle(case):
                 if ty[0] != "STRING" or size != storage:
                     obs["viols"].append({"sig": "C10/bundle/library-string-size", "detail": {
                         "source": case["text"], "storage": storage, "procedure": pr.name, "name": name, "declared": list(ty)}})
+    # ... and a string of a bundled procedure that is filled from one of those sized strings holds as much as they do: a
+    # local left at BASIC09's 32 bytes (no size, no tag) silently cuts what the sized parameters carry.  (A piece of known
+    # length - MID$ / LEFT$ / RIGHT$ with a constant count that fits - is not "filled from" the string.)
+    flows = 0
+    for pr in procs[:-1]:
+        sizes = {}
+        for name, dims, ty, kind, idx in static.analyse(pr).decls:
+            if ty[0] == "STRING":
+                sizes[name] = ty[1] if len(ty) > 1 else 32
+        for st in pr.body:
+            if st.k != "assign" or st.lv[1] not in sizes:
+                continue
+            e = st.e
+            if e[0] == "call" and e[1] in ("MID$", "LEFT$", "RIGHT$") and e[2][-1][0] == "num" and e[2][-1][1] <= sizes[st.lv[1]]:
+                continue
+            srcs = set()
+            static.walk(e, lambda x: srcs.add(x[1]) if x[0] == "ref" and x[1] in sizes else None)
+            flows += 1
+            big = sorted(s_ for s_ in srcs if sizes[s_] > sizes[st.lv[1]])
+            if big:
+                obs["viols"].append({"sig": "C10/bundle/library-string-smaller-than-its-source", "detail": {
+                    "source": case["text"], "storage": storage, "procedure": pr.name, "name": st.lv[1], "size": sizes[st.lv[1]],
+                    "filled_from": big, "their_sizes": [sizes[b_] for b_ in big]}})
+    obs["counters"]["library_string_flows_checked"] = flows
     obs["counters"]["library_string_declarations"] = n
     obs["counters"]["declarations_checked"] = n
     obs["nontrivial"] = n > 0
